@@ -43,8 +43,41 @@ def run(ctx):
     T = lt[0]
     tn = [n for n in defs[T] if isinstance(n.ast.value, ast.Call) and _n(n.ast.value.func) == "jax.linear_transpose"][0]
     R = _n(tn.ast.value.args[0])
-    conj = any(isinstance(n.ast.value, ast.Call) and call_name(n.ast.value) == "_functional_conj" and _n(n.ast.value.args[0]) == T for n in defs[T])
-    ctx.check("R20.1", key, conj and _n(tn.ast.value.args[1]) == f"{lh}.domain", f"{T} = {src(tn.ast.value)}; conjugated: {conj}", fi)
+    conj_nodes = {n.id for n in defs[T] if isinstance(n.ast.value, ast.Call) and call_name(n.ast.value) == "_functional_conj" and _n(n.ast.value.args[0]) == T}
+    # every application of R^dagger must see the conjugated definition (and only that one)
+    uses = [n for n, c in find_nodes(cfg, lambda q: isinstance(q, ast.Call) and isinstance(q.func, ast.Name) and q.func.id == T)]
+    for f_ in ast.walk(fi.node):
+        if isinstance(f_, ast.FunctionDef) and f_ is not fi.node and any(isinstance(c, ast.Call) and isinstance(c.func, ast.Name) and c.func.id == T for c in ast.walk(f_)):
+            uses += [n for n in cfg.nodes if n.ast is f_]
+    bad_use = [n for n in uses if not ((rd.get(n.id) or {}).get(T, frozenset()) <= conj_nodes)]
+    conj = bool(conj_nodes) and bool(uses) and not bad_use
+    ctx.check("R20.1", key, conj and _n(tn.ast.value.args[1]) == f"{lh}.domain",
+              f"{T} = {src(tn.ast.value)}; conjugated on every path to its uses: {conj}" +
+              (f" (line {bad_use[0].lineno} can see the plain transpose: for a complex response that is R^T, not R^dagger)" if bad_use else ""), fi)
+    # linearisation: data' = data - F(position) + R(position)
+    lin = [n for n in cfg.nodes if n.kind == "stmt" and isinstance(n.ast, ast.Assign) and isinstance(n.ast.targets[0], ast.Tuple) and "jax.linearize" in _n(n.ast.value)]
+    key_l = f"{fi.key}::non-linear model: data is replaced by data - F(position) + R(position)"
+    if len(lin) == 1:
+        prim, Rl = [_n(x) for x in lin[0].ast.targets[0].elts]
+        block = None
+        for x in ast.walk(fi.node):
+            for fld in ("body", "orelse"):
+                b_ = getattr(x, fld, None)
+                if isinstance(b_, list) and any(y is lin[0].ast for y in b_):
+                    block = b_
+        dd = [n for n in cfg.nodes if n.kind == "stmt" and isinstance(n.ast, ast.Assign) and block is not None and any(n.ast is y for y in block)
+              and isinstance(n.ast.targets[0], ast.Name) and n.ast.targets[0].id != Rl and n is not lin[0]]
+        if len(dd) == 1:
+            from ..terms import canon
+            dn_ = dd[0].ast.targets[0].id
+            t_ = canon(dd[0].ast.value, add=True)
+            pos_n = fi.params()[1]
+            wants = [canon(f"{dn_} - {F_} + {Rl}({pos_n})", add=True) for F_ in (f"{lh}.forward({pos_n})", prim)]
+            ctx.check("R20.1", key_l, t_ in wants, src(dd[0].ast) + ("" if t_ in wants else f": the term + {Rl}({pos_n}) of the linearisation is missing or altered"), fi, dd[0].ast)
+        else:
+            ctx.und("R20.1", key_l, f"{len(dd)} data updates in the non-linear branch", fi)
+    else:
+        ctx.und("R20.1", key_l, "jax.linearize binding not found", fi)
     rdefs = sorted(_n(n.ast.value) for n in defs.get(R, []))
     ctx.check("R20.1", f"{fi.key}::R is the forward model (linear case) or its linearisation at the position",
               f"{lh}.forward" in rdefs and len(rdefs) <= 1 or any(isinstance(n.ast.targets[0], ast.Tuple) and "jax.linearize" in _n(n.ast.value)
@@ -179,8 +212,9 @@ def run(ctx):
                 alts.append(_n(inline_at(c2, r2, dn.id, dn.ast.value, depth=2)))
         want_sum = (f"{Mdef}+{Sinv}", f"{Sinv}+{Mdef}")
         ok_sum = any(a_ in want_sum for a_ in alts)
-        ok_se = any(a_.startswith(f"SamplingEnabler({Mdef},{Sinv},") and a_.endswith(f",{Sinv})") for a_ in alts)
+        ics = wf.params()[4] if len(wf.params()) > 4 else "iteration_controller_sampling"
+        ok_se = any(a_ == f"SamplingEnabler({Mdef},{Sinv},{ics},{Sinv})" for a_ in alts) and _n(e.args[1]) == wf.params()[3]
         ctx.check("R20.3", f"{wf.key}::curvature = R^dagger N^-1 R + S^-1", ok_sum and len(alts) == 2, str(alts), wf)
-        ctx.check("R20.3", f"{wf.key}::sampling variant pairs the same likelihood and prior parts (prior approximates the inverse)", ok_se, str(alts), wf)
+        ctx.check("R20.3", f"{wf.key}::sampling variant pairs the same likelihood and prior parts, samples with the SAMPLING controller, inverts with the inversion controller", ok_se, str(alts), wf)
     else:
         ctx.und("R20.3", f"{wf.key}::InversionEnabler(op, controller, preconditioner)", src(e), wf)
